@@ -957,6 +957,9 @@ def untake(x, idx, vs):
             idx = idx.astype("int64")
 
     def mut_add(A):
+        if not isinstance(A, onp.ndarray):
+            # the running sum of a 0-d value collapses into a NumPy scalar (array(1.) + array(2.)), which add.at rejects
+            A = onp.array(A)
         onp.add.at(A, idx, x)
         return A
 
